@@ -202,6 +202,8 @@ def replay_qpoints(with_e, with_d, omp, sub):
             "bad=0\n"
             "if %r: bad=max(bad, float(np.abs(d['dynamical_matrices']-ref['dynamical_matrices']).max()))\n"
             "bad=max(bad, float(np.abs(d['frequencies']-ref['frequencies']).max()))\n"
+            "for i in range(len(Q)):\n"
+            "    w=np.linalg.eigvalsh(ref['dynamical_matrices'][i]); bad=max(bad, float(np.abs(d['frequencies'][i]-np.sqrt(np.abs(w))*np.sign(w)*ph.unit_conversion_factor).max()))\n"
             "if %r:\n"
             "    for i in range(len(Q)):\n"
             "        D=ref['dynamical_matrices'][i]; V=d['eigenvectors'][i]; w=np.linalg.eigvalsh(D)\n"
